@@ -209,6 +209,7 @@ func execC10(x *Ctx, sc *wire.Scenario) *wire.Result {
 			if failed || h == nil {
 				return
 			}
+			x.beat()
 			switch op.Op {
 			case "write":
 				doWrite(op.text())
@@ -266,7 +267,8 @@ func execC10(x *Ctx, sc *wire.Scenario) *wire.Result {
 				}
 				prev := ack[:len(ack)-1]
 				var ks []int
-				if op.Op == "crashall" && L <= 4096 {
+				if op.Op == "crashall" && L <= 4096 && int(lastStart)*(L+1) <= 64<<20 {
+					// every byte offset, while re-reading the file that many times stays cheap
 					for k := 0; k <= L; k++ {
 						ks = append(ks, k)
 					}
@@ -284,6 +286,9 @@ func execC10(x *Ctx, sc *wire.Scenario) *wire.Result {
 				for ci, k := range ks {
 					if k < 0 || k > L {
 						continue
+					}
+					if ci%16 == 0 {
+						x.beat()
 					}
 					cut := append([]byte(nil), full[:int(lastStart)+k]...)
 					if op.Flip > 0 && k > 0 {
